@@ -19,7 +19,7 @@ from . import common
 
 ID = 'C12'
 LEVEL = 'exploration'
-RUNS = {'quick': 2500, 'thorough': 60000}
+RUNS = {'quick': 6000, 'thorough': 150000}
 SIM_TIME_UNIT = 'updates / evaluations'
 RULE = ('seeded generation of (modular specification with 1-4 named sub-specifications incl. shared, nested and unreferenced '
         'ones, monitor kind, data); every update is a checked history for the online kinds; non-trivial = some named value is '
